@@ -357,3 +357,38 @@ def touching(E, penv, tol):
             elif close.sum() >= 3:
                 return True
     return False
+
+
+def contact_op(E, env1, tol):
+    """'<op>+contact' when the (single) row lies on the boundaries of two different operand leaves: op is the
+    Boolean operation that joins the two (lowest common ancestor); None otherwise."""
+    A = E["a"] if E["t"] == "boundary" else E
+    if A["t"] == "product":
+        for c in (A["a"], A["b"]):
+            r = contact_op(c, env1, tol)
+            if r is not None:
+                return r
+        return None
+    if rg.has(A, lambda n: n["t"] == "product"):
+        return None
+    found = []
+
+    def visit(n, e, path):
+        if n["t"] in rg.LEAVES:
+            found.append((float(rg.leaf_contains_bdist(n, e)[1][0]), path))
+        elif n["t"] in ("translate", "rotate"):
+            visit(n["a"], rg.pull_back(n, e), path)
+        else:
+            for j, c in enumerate(rg.children(n)):
+                visit(c, e, path + [(n["t"], j)])
+    visit(A, env1, [])
+    found.sort(key=lambda f: f[0])
+    if len(found) < 2 or found[1][0] > 5 * tol:
+        return None
+    p1, p2 = found[0][1], found[1][1]
+    op = None
+    for a, b in zip(p1, p2):
+        op = a[0]
+        if a != b:
+            break
+    return (op or "?") + "+contact"
